@@ -10,7 +10,7 @@
 (* curve polynomial of E2' is a NON-square at r: no rational kernel point  *)
 (* exists (asserted below), in accordance with 3 not dividing #E2'(Fq2)/r..*)
 (***************************************************************************)
-EXTENDS PolyFq, JMap, Json, IOUtils, SequencesExt
+EXTENDS PolyFq, JMap, Json, IOUtils, SequencesExt, TLC
 
 OutDir == IOEnv.OUT
 KRoots == RootsOf(DistinctRootPart(Iso1XDEN), 1)
@@ -29,6 +29,17 @@ R2 == F2Neg(F2Mul(Iso2XDEN[2], F2Inv(<<Two, Zero>>)))
 ASSUME Len(Iso2XDEN) = 3 /\ PolyEval("G2", Iso2XDEN, R2) = F2Zero
 ASSUME F2Legendre(EpRhs("G2", R2)) = -1
 
+(* points whose image has abscissa 0 (the image is then one of the order-3 points (0, +-2) of E1): *)
+(* rational roots of the x-NUMERATOR above which E1' has points                                     *)
+NRoots == RootsOf(DistinctRootPart(Iso1XNUM), 1)
+ZeroXPts == FlattenSeq([i \in 1..Len(NRoots) |->
+              LET g == EpRhs("G1", NRoots[i])  y == FqSqrtCand(g) IN
+              IF FqSqr(y) = g /\ PolyEval("G1", Iso1XDEN, NRoots[i]) # Zero
+              THEN << <<NRoots[i], y>>, <<NRoots[i], FqNeg(y)>> >> ELSE <<>>])
+ASSUME PrintT(<<"points with image abscissa 0", Len(ZeroXPts)>>)
+ASSUME \A i \in 1..Len(ZeroXPts) :
+          LET I == Iso("G1", ZeroXPts[i]) IN E1p!OnCurve(ZeroXPts[i]) /\ Len(I) = 2 /\ I[1] = Zero /\ E1!OnCurve(I)
+
 Lam(i) == FqPow(<<5>>, FromInt(91 + i))
 Jac(P, i) == IF i = 0 THEN <<P[1], P[2], One>>
              ELSE LET l == Lam(i) l2 == FqSqr(l) IN <<FqMul(P[1], l2), FqMul(P[2], FqMul(l2, l)), l>>
@@ -41,7 +52,11 @@ Script ==
        \* kernel point + generic point has the image of the generic point
        [op |-> "iso_hom", g |-> "G1", p |-> Jac(KerPts[i], i + 20), q |-> Jac(Generic(i), i + 40), cls |-> "kernel-plus-generic"] >>])
   \o << [op |-> "iso_hom", g |-> "G1", p |-> Jac(KerPts[1], 3), q |-> Jac(KerPts[3], 0), cls |-> "kernel-plus-kernel"] >>
+  \o FlattenSeq([i \in 1..Len(ZeroXPts) |->
+       << [op |-> "iso", g |-> "G1", p |-> Jac(ZeroXPts[i], 0), cls |-> "image-abscissa-zero"],
+          [op |-> "iso", g |-> "G1", p |-> Jac(ZeroXPts[i], i + 60), cls |-> "image-abscissa-zero-rescaled"] >>])
 
 ASSUME ndJsonSerialize(OutDir \o "/iso-kernel-100.script.ndjson", SubSeq(Script, 1, 16))
-ASSUME ndJsonSerialize(OutDir \o "/iso-kernel-101.script.ndjson", SubSeq(Script, 17, Len(Script)))
+ASSUME ndJsonSerialize(OutDir \o "/iso-kernel-101.script.ndjson", SubSeq(Script, 17, 31))
+ASSUME ndJsonSerialize(OutDir \o "/iso-kernel-102.script.ndjson", SubSeq(Script, 32, Len(Script)))
 =============================================================================
